@@ -302,6 +302,8 @@ fn helpers_case(out: &mut Out, g: &GraphModel, strat: &str, cfg: &Cfg, r: &mut R
         match st.as_str() {
             "bfs" => { let c = b.spawn_bfs().join(); rows(&c, np, &mut rr) }
             "dfs" => { let c = b.spawn_dfs().join(); rows(&c, np, &mut rr) }
+            // an on-demand checker that is never told to do anything: the helpers on an UNFINISHED check
+            "fresh" => { let c = b.spawn_on_demand(); std::thread::sleep(std::time::Duration::from_millis(2)); rows(&c, np, &mut rr) }
             _ => { let c = b.spawn_on_demand(); c.run_to_completion(); let c = c.join(); rows(&c, np, &mut rr) }
         }
     }));
@@ -391,6 +393,12 @@ fn main() {
         out.stat("with-run-controls");
         if prop == "c02" || prop == "c03" {
             helpers_case(&mut out, &g, strategies[c % 3], if c % 2 == 0 { &cfg } else { &plain_cfg }, &mut r);
+            // (only with an in-boundary initial state: without one the workers leave at once and `is_done` flips
+            // to true at a moment that depends on the scheduler)
+            if c % 5 == 0 && g.init.iter().any(|s| g.bnd[*s as usize]) {
+                helpers_case(&mut out, &g, "fresh", &plain_cfg, &mut r);
+                out.stat("helper-cases-on-an-unfinished-check");
+            }
         }
         // simulation with a scripted chooser (all initial states inside the boundary so that every trace counts
         // at least one state and the target state count ends the run)
